@@ -226,6 +226,7 @@ def run(ck):
     api = {f.path for f in P.fns.values() if f.crate == "zlib_rs" and f.j.get("vis") == "Public" and P.callers_of(f.path) & set(roots)}
     abort.check(ck, P, roots, "ABORT/c-api", abort_table.JUSTIFIED, api_fns=api, label="C API")
     validation(ck, P)
+    setdict_status_rule(ck, P)
     from .. import guards as _gct
     _gct.c_truthiness(ck, P)
     from .. import taint as _t
@@ -266,3 +267,32 @@ EXPLANATION = EXPLANATION + " " + (
 # session 5 (round 10)
 EXPLANATION = EXPLANATION + " " + (
     "ATOM/duplicate-flush and ATOM/rank-flush (shared with C11): the BUF_ERROR for a repeated flush is decided by zlib's ranking of the flush values.")
+
+
+def setdict_status_rule(ck, P, R="ATOM/setdict-status"):
+    """deflateSetDictionary: `if (wrap == 2 || (wrap == 1 && s->status != INIT_STATE) || s->lookahead) return Z_STREAM_ERROR` - the
+    "only before the first deflate call" restriction belongs to the zlib wrapper; a raw stream may be given a dictionary at any
+    block boundary.  Every branch of deflate::set_dictionary that tests `status` is taken only under `wrap == 1`."""
+    from .. import sig as _sig
+    f = P.fn(Z + "deflate::set_dictionary")
+    if not ck.anchor("fn deflate::set_dictionary", f):
+        return
+    ck.use_fn(f)
+    n = 0
+    for b in sorted(f.live):
+        t = f.blocks[b]["t"]
+        if t["k"] != "switch" or b in f.debug_branches:
+            continue
+        d = f.operand_expr(t["discr"])
+        if not mir.mentions_field(d, "status"):
+            continue
+        n += 1
+        ok = False
+        for a in f.dominating_atoms(b):
+            s = _sig.sig(a, f)
+            if s.rel == "Eq" and "wrap" in s.names and 1 in s.consts:
+                ok = True
+        ck.decide(ok, R, "set_dictionary:status-test#%d" % n, "status is tested only for the zlib wrapper (wrap == 1)",
+                  "deflate::set_dictionary tests `status` outside `wrap == 1`: a raw deflate stream is refused a dictionary after its "
+                  "first deflate() call (zlib-ng returns Z_OK there)", where(f, t.get("line")))
+    ck.floor(R, n, 1)
